@@ -3,6 +3,7 @@
 package proxycore
 
 import (
+	"sync"
 	"sync/atomic"
 )
 
@@ -10,8 +11,20 @@ import (
 // can record the event, yield/sleep, or block until released. It must be set before any connection is created.
 var VerifHook func(point string, args ...interface{})
 
+// verifConnAddrs remembers the addresses of every connection from the first time it sends a request (the handshake, on
+// the goroutine that created it), so that hook events raised on the connection's reader goroutine can name the
+// connection without reading ClientConn.conn, whose assignment is not ordered with that goroutine.
+var verifConnAddrs sync.Map // *ClientConn -> [2]string
+
 func verifAt(point string, args ...interface{}) {
 	if h := VerifHook; h != nil {
+		if point == "clientconn.send.registered" && len(args) > 0 {
+			if c, ok := args[0].(*ClientConn); ok {
+				if _, known := verifConnAddrs.Load(c); !known && c.conn != nil {
+					verifConnAddrs.Store(c, [2]string{c.conn.LocalAddr().String(), c.conn.RemoteAddr().String()})
+				}
+			}
+		}
 		h(point, args...)
 	}
 }
@@ -33,10 +46,11 @@ func (c *ClientConn) VerifPending() (free int, mapped int) {
 
 // VerifAddrs returns the local and remote address of the underlying connection.
 func (c *ClientConn) VerifAddrs() (local, remote string) {
-	if c.conn == nil {
-		return "", ""
+	if v, ok := verifConnAddrs.Load(c); ok {
+		a := v.([2]string)
+		return a[0], a[1]
 	}
-	return c.conn.LocalAddr().String(), c.conn.RemoteAddr().String()
+	return "", ""
 }
 
 // VerifEndpoint returns the endpoint key of the pool.
